@@ -762,6 +762,69 @@ Section RF_MISSING.
   Qed.
 End RF_MISSING.
 
+(** ** where the addresses come from: caller's argument, else the long address of the header *)
+Lemma rf_resolve_spec : forall arg h a,
+  rf_resolve arg h = Some a <-> (arg = Some a \/ (arg = None /\ h = Some (AMLong a))).
+Proof.
+  intros arg h a. unfold rf_resolve, rf_header_long. split.
+  - destruct arg as [b|]; [intros H; injection H as <-; auto|].
+    destruct h as [[|s|l]|]; try discriminate. intros H; injection H as <-. auto.
+  - intros [->|[-> ->]]; reflexivity.
+Qed.
+
+Lemma rf_resolve_none : forall arg h,
+  rf_resolve arg h = None <-> (arg = None /\ forall a, h <> Some (AMLong a)).
+Proof.
+  intros arg h. unfold rf_resolve, rf_header_long. split.
+  - destruct arg; [discriminate|]. destruct h as [[|s|l]|]; try discriminate; intros _; split; try reflexivity;
+      intros a; discriminate.
+  - intros [-> H]. destruct h as [[|s|l]|]; try reflexivity. exfalso. apply (H l). reflexivity.
+Qed.
+
+Lemma rf_with_addrs_wf x asrc adst hsrc hdst : rf_wf x -> rf_wf (rf_with_addrs x asrc adst hsrc hdst).
+Proof. intros H. exact H. Qed.
+
+Section RF_ADDRESSING.
+  Variable E : bytes -> bytes -> bytes.
+  Hypothesis E_length : forall k b, length (E k b) = 16.
+
+  (** self-inverse for every combination of 802.15.4 addressing modes (none / short / long, or no MAC
+      layer at all) and caller-supplied addresses in which both 8-byte addresses are available; the
+      receiver resolves its addresses the same way (same header, its own arguments) *)
+  Theorem rf_self_inverse_addressing : forall key x asrc adst hsrc hdst dasrc dadst src dst,
+    rf_wf x ->
+    rf_resolve asrc hsrc = Some src -> rf_resolve adst hdst = Some dst ->
+    rf_resolve dasrc hsrc = Some src -> rf_resolve dadst hdst = Some dst ->
+    let fa := N.lor (N.lor (r_fctl x) 32) 4 in
+    let has_mac := match hsrc with Some _ => true | None => false end in
+    exists w x' tag,
+      rf_encrypt E std_variant key (rf_with_addrs x asrc adst hsrc hdst) = RPkt w /\
+      rf_parse (length (r_pre x)) (rf_resolve dasrc hsrc) (rf_resolve dadst hdst) has_mac w = Some x' /\
+      length tag = 4 /\
+      rf_decrypt E std_variant key x' = RTuple (r_pre x ++ rf_nwk fa (r_fc x) (r_hdr x) (r_payload x) tag) true.
+  Proof.
+    intros key x asrc adst hsrc hdst dasrc dadst src dst Hwf Hs Hd Hs' Hd' fa has_mac.
+    rewrite Hs', Hd'.
+    exact (rf_self_inverse E E_length key (rf_with_addrs x asrc adst hsrc hdst) src dst
+             (rf_with_addrs_wf x asrc adst hsrc hdst Hwf) Hs Hd).
+  Qed.
+
+  (** an address that is neither given by the caller nor long in the header: (packet, False) from
+      encrypt, and from decrypt of a secured frame — never an exception, never a silently
+      protected frame *)
+  Theorem rf_missing_address_addressing : forall key x asrc adst hsrc hdst,
+    (asrc = None /\ rf_header_long hsrc = None) \/ (adst = None /\ rf_header_long hdst = None) ->
+    (exists b, rf_encrypt E std_variant key (rf_with_addrs x asrc adst hsrc hdst) = RTuple b false) /\
+    (rf_sec (r_fctl x) = true ->
+     exists b, rf_decrypt E std_variant key (rf_with_addrs x asrc adst hsrc hdst) = RTuple b false).
+  Proof.
+    intros key x asrc adst hsrc hdst H.
+    apply (rf_missing_address_dedicated E key (rf_with_addrs x asrc adst hsrc hdst)).
+    cbn [rf_with_addrs r_src r_dst]. unfold rf_resolve.
+    destruct H as [[-> H]|[-> H]]; rewrite H; auto.
+  Qed.
+End RF_ADDRESSING.
+
 (** ** the CBC-MAC input determines source, frame counter, frame control (reserved bit forced),
     destination and payload: the MIC covers all of them *)
 Theorem rf_auth_injective : forall s s' fc fc' f f' d d' m m',
